@@ -41,7 +41,9 @@ Pool ==
      R("{ sr { r(e: RED) } srl { k: r(e: RED, y: 1) r(y: 3) } }", "", "-", "-", "-"),       \* 24
      R("{ a b }", "", "-", "thunkerr", "deferred_error_order"),                             \* 25 exactly two deferred failures
      R("{ o { x y } n { x y } }", "", "-", "thunkerr", "deferred_error_order"),              \* 26 ... in nested objects
-     R("mutation { b a }", "", "-", "thunkerr", "deferred_error_order")                     \* 27
+     R("mutation { b a }", "", "-", "thunkerr", "deferred_error_order"),                    \* 27
+     R("{ ol }", "", "-", "-", "suggest"),                                                  \* 28 a misspelt field with many equidistant candidates (o l ll dl il el)
+     R("query($v: Ix) { a ... on Ux { x } }", "", "-", "-", "suggest")                      \* 29 misspelt type names (In I IT / U UO)
   >>
 
 VARIABLE hist
